@@ -1077,4 +1077,52 @@ theorem C07_lawFailure_sound (P : Prims) (T : DomainTheory) (ds : List Str)
   · intro x hx y hy o h1' h2'; have := h9 x hx y hy; simpa [h1', h2'] using this
   · intro x hx y hy o h1' h2'; have := h10 x hx y hy; simpa [h1', h2'] using this
 
+/-! ### Routing blocks between the evaluating pipeline and the storage -/
+
+theorem routed_accept (hops : List Bool) (q : Bool) :
+    routed hops (.accept q) = .accept (q || hops.any id) := by
+  induction hops generalizing q with
+  | nil => simp [routed]
+  | cons h t ih =>
+    have : routed (h :: t) (.accept q) = routed t (.accept (q || h)) := by
+      simp [routed, applyResultsRouting]
+    rw [this, ih]
+    simp [Bool.or_assoc]
+
+theorem routed_refuse (hops : List Bool) (c a b d : Nat) :
+    routed hops (.refuse c a b d) = .refuse c a b d := by
+  induction hops with
+  | nil => simp [routed]
+  | cons h t ih =>
+    have : routed (h :: t) (.refuse c a b d) = routed t (.refuse c a b d) := by
+      simp [routed, applyResultsRouting]
+    rw [this, ih]
+
+/-- "quarantine flags it": whatever routing blocks (nested pipelines) lie between the pipeline that
+evaluated DMARC and the storage target, a message flagged by the evaluation arrives flagged. -/
+theorem C07_quarantine_survives_routing (hops : List Bool) :
+    routed hops (.accept true) = .accept true := by
+  rw [routed_accept]; simp
+
+/-- Routing blocks whose own checks flag nothing do not change the fate at all. -/
+theorem C07_routing_is_transparent (hops : List Bool) (h : hops.any id = false) (r : Reply) :
+    routed hops r = r := by
+  cases r with
+  | refuse c a b d => exact routed_refuse hops c a b d
+  | accept q => rw [routed_accept, h]; simp
+
+/-- The main theorem carried through the routing blocks: the storage target sees the fate the
+specification prescribes for the reported results (a refusal, or acceptance flagged iff the
+evaluation or some check - of the evaluating pipeline or of a routing block - flagged it). -/
+theorem C07_routed_checks_timing_irrelevant (P : Prims) (dns : Str → Lookup) (arrive : Str → Nat)
+    (hdr : List FieldParse) (cs : List CheckRes) (rnd : Nat) (flagged : Bool) (hops : List Bool) :
+    routed hops (pipelineChecks P dns arrive hdr cs rnd flagged) =
+      routed hops (applyResults (mergedQuarantine flagged cs) (verify P dns hdr (mergedResults cs).flatten rnd)) := by
+  rw [C07_checks_timing_irrelevant]
+
+example : routed [false, false] (.accept true) = .accept true := by decide
+example : routed [false, true] (.accept false) = .accept true := by decide
+-- what the storage must NOT see: a routing block's applyResults writing its own (empty) decision
+example : routed [false] (.accept true) ≠ .accept false := by decide
+
 end MaddyVerif.C07
